@@ -62,16 +62,18 @@ theorem C06_partial (capK maxDepth : Nat) (ops : List (Op H K B V))
     of the link cache. (Coarser than the harness's matcher, which counts distinct blocks, but sound.) -/
 theorem noEviction_of_counts (capK maxDepth : Nat) (ops : List (Op H K B V))
     (hK : ∀ k, (ops.filter (fun o => o.touches k)).length ≤ capK)
-    (hC : (ops.filter (fun o => o.isCommit)).length ≤ maxDepth) :
+    (hC : (ops.filter (fun o => o.isCommit)).length ≤ maxDepth)
+    (hR : ∀ op ∈ ops, op.isRemove = false) :
     NoEviction (Sys.new capK maxDepth) ops :=
   Sys.run_noEviction capK maxDepth ops _ (fun _ => 0) 0 (Len.init capK maxDepth)
-    (fun k => by simpa using hK k) (by simpa using hC)
+    (fun k => by simpa using hK k) (by simpa using hC) hR
 
 /-- `C06_static`: the full statement for every history that stays within the static counts — no run-time hypothesis. -/
 theorem C06_static (capK maxDepth : Nat) (ops : List (Op H K B V))
     (hK : ∀ k, (ops.filter (fun o => o.touches k)).length ≤ capK)
-    (hC : (ops.filter (fun o => o.isCommit)).length ≤ maxDepth) : AllOK (Sys.new capK maxDepth) [] ops :=
-  C06_partial capK maxDepth ops (noEviction_of_counts capK maxDepth ops hK hC)
+    (hC : (ops.filter (fun o => o.isCommit)).length ≤ maxDepth)
+    (hR : ∀ op ∈ ops, op.isRemove = false) : AllOK (Sys.new capK maxDepth) [] ops :=
+  C06_partial capK maxDepth ops (noEviction_of_counts capK maxDepth ops hK hC hR)
 
 /-- `fork_independent`: the answer for `(k, b)` only reads the blocks on `b`'s own ancestor chain — two trees that agree
     on those blocks give the same answer. -/
